@@ -6,7 +6,7 @@
    every variant (the tree structure does not depend on the cut search).
    Rib = the same function applied to the rotated points recorded by the hook. *)
 From Coupe Require Import Lib.Prelude Lib.SFloat Model.Rcb Gen.RcbGen
-  Proofs.SFOrder Proofs.RcbProofs Proofs.RcbInst.
+  Proofs.SFOrder Proofs.RcbProofs Proofs.RcbInst Proofs.RcbTotal.
 From Coq Require Import Floats.SpecFloat Permutation.
 Open Scope Z_scope.
 
@@ -88,6 +88,61 @@ Theorem C03_checker_sound : forall D k pts ids,
   /\ exists t, Permutation t (combine (to32 pts) ids) /\ BisectTree spec_float flt D k 0%nat t.
 Proof. exact check_bisect32_sound. Qed.
 Print Assumptions C03_checker_sound.
+
+(* PARTIAL (feeds C01): termination of the cut search and totality of rcb for
+   the stop rules at HEAD, for every schedule, from a bounded order embedding
+   [rank] of the representable values [good] (closed under the midpoint) into
+   Z.  The embedding exists for binary32 (rank = the sign-magnitude reading
+   of the bit pattern) but its three hypotheses are NOT discharged for
+   SpecFloat here; the runs use fuel 2000 and an OutOfFuel would be a mismatch. *)
+Theorem C03_search_terminates_partial :
+  forall (C : Type) (ltb leb : C -> C -> bool) (mid dist addc : C -> C -> C) (zero inf : C)
+    (within_tol : Z -> Z -> bool) (by_coord probe_max : bool) (good : C -> bool) (rank : C -> Z),
+  (forall a b, good a = true -> good b = true -> good (mid a b) = true) ->
+  (forall x y, good x = true -> good y = true -> ltb x y = true -> rank x < rank y) ->
+  forall (xs : list (keyed C)) (sum : Z) (fuel : nat) (sch : nat -> stree) (it : nat) (mn mx : C) (prev : option Z),
+  good mn = true -> good mx = true -> (1 <= fuel)%nat -> Z.of_nat fuel > rank mx - rank mn ->
+  exists sr, search C ltb leb mid dist addc zero inf within_tol false by_coord probe_max fuel sch it xs sum mn mx prev = Ok sr
+    /\ match sr with SplitAt i _ _ _ => (i < length xs)%nat | AllLeft _ => True end.
+Proof. exact search_total. Qed.
+Print Assumptions C03_search_terminates_partial.
+
+Theorem C03_rcb_total_partial :
+  forall (C : Type) (ltb leb : C -> C -> bool) (mid dist addc : C -> C -> C) (zero inf : C)
+    (within_tol : Z -> Z -> bool) (by_coord probe_max : bool) (valid : C -> bool),
+  (forall x, valid x = true -> ltb x x = false) ->
+  (forall x y z, valid x = true -> valid y = true -> valid z = true -> ltb x y = true -> ltb x z = true \/ ltb z y = true) ->
+  (forall x y, valid x = true -> valid y = true -> leb x y = negb (ltb y x)) ->
+  forall (good : C -> bool) (rank : C -> Z) (rlo rhi : Z),
+  (forall a b, good a = true -> good b = true -> good (mid a b) = true) ->
+  (forall x y, good x = true -> good y = true -> ltb x y = true -> rank x < rank y) ->
+  (forall x, good x = true -> rlo <= rank x <= rhi) ->
+  forall fuel sched D k (its : list (item C)) sum (bb : list (C * C)) p0,
+  (0 < D)%nat -> length bb = D -> Forall (wf_item C valid D) its ->
+  Forall (fun b => good (fst b) = true /\ good (snd b) = true) bb ->
+  map ix its = seq 0 (length p0) -> its <> [] ->
+  (1 <= fuel)%nat -> Z.of_nat fuel > rhi - rlo ->
+  exists p, rcb_core C ltb leb mid dist addc zero inf within_tol false by_coord probe_max fuel sched D k its sum bb p0 = Ok p.
+Proof. exact rcb_core_total. Qed.
+Print Assumptions C03_rcb_total_partial.
+
+(* the rank hypotheses are satisfiable: integers in [0, 1000] with the integer midpoint *)
+Example C03_rank_hypotheses_satisfiable :
+  let good := fun x => (0 <=? x) && (x <=? 1000) in
+  let mid := fun a b => (a + b) / 2 in
+  (forall a b, good a = true -> good b = true -> good (mid a b) = true)
+  /\ (forall x y, good x = true -> good y = true -> Z.ltb x y = true -> x < y)
+  /\ (forall x, good x = true -> 0 <= x <= 1000).
+Proof.
+  cbv zeta. repeat split.
+  - intros a b Ha Hb. apply andb_true_iff in Ha, Hb. destruct Ha as [A1 A2], Hb as [B1 B2].
+    apply Z.leb_le in A1, A2, B1, B2. apply andb_true_iff. split; apply Z.leb_le.
+    + apply Z.div_pos; lia.
+    + apply Z.div_le_upper_bound; lia.
+  - intros x y _ _ H. apply Z.ltb_lt, H.
+  - apply andb_true_iff in H. destruct H as [A _]. apply Z.leb_le, A.
+  - apply andb_true_iff in H. destruct H as [_ A]. apply Z.leb_le, A.
+Qed.
 
 (* non-vacuity: the doc example of Rcb (4 points, 2 iterations) runs to Ok in
    the model with 4 distinct parts, and the checker accepts it *)
